@@ -31,6 +31,7 @@ def run(idx: ProgramIndex, rep: Report, tier: str):
     rep.rule("C15-1", "ELBO/PLL assembly: +LL/B - beta*KL/N + PRIOR/N - ADDED with the stated provenance of B, N, beta")
     rep.rule("C15-2", "subclasses take expected_log_prob (ELBO) / log_marginal (PLL) of the likelihood, summed over the data axis")
     rep.rule("C15-4", "no in-place aliasing hazard in the variational objective code (storage/version domain)")
+    site_weights_aligned(idx, rep)
     rep.rule("C15-3", "NGD.step scales the natural-gradient step by num_data and the learning rate, with a minus sign")
     A = idx.find_class("_ApproximateMarginalLogLikelihood")
     fi = idx.method(A, "forward", own=True)
@@ -224,3 +225,33 @@ def weights_not_divisors(idx: ProgramIndex, rep: Report):
                                 "the constructor rejects the values of `%s` at which the divisor vanishes" % w if ok else
                                 "`%s` divides by the user-supplied weight `%s` (default %s): the objective is undefined (ZeroDivisionError) at %s = 0, a value the definition (beta / N) KL covers and KL warm-up schedules start from" % (" ".join(src(x).split())[:60], w, src(defaults[w]), w), {})
     rep.floor("C15-7", "divisions by user-supplied weights", n, 1)
+
+
+# ---- C15-8 ---------------------------------------------------------------------------------------------------------
+def site_weights_aligned(idx: ProgramIndex, rep: Report):
+    """DSPP objectives weight the quadrature sites, which live on the LEADING dimension of log_marginal (q x [batch] x n).  A weight vector of
+    shape (q,) broadcasts from the right, so it has to be given as many trailing singleton axes as the term has further dimensions - a number
+    that depends on the batch rank of the data.  A fixed `unsqueeze(-1)` aligns the sites with the data axis for un-batched data only."""
+    rep.rule("C15-8", "the per-site quadrature weights of the deep objectives are aligned with the leading dimension of the term they weight for every batch rank (trailing singleton axes counted on that term, not a constant)")
+    n = 0
+    for cls in sorted(idx.package_classes(), key=lambda c: c.qualname):
+        for name, m in sorted(cls.methods.items()):
+            for x in ast.walk(m.node):
+                if not (isinstance(x, ast.BinOp) and isinstance(x.op, (ast.Add, ast.Mult))):
+                    continue
+                for w, other in ((x.left, x.right), (x.right, x.left)):
+                    if "quad_weights" not in src(w):
+                        continue
+                    n += 1
+                    # resolve a local name
+                    wexpr = w
+                    if isinstance(w, ast.Name):
+                        vs = [a.value for a in ast.walk(m.node) if isinstance(a, ast.Assign) and any(isinstance(t, ast.Name) and t.id == w.id for t in a.targets)]
+                        wexpr = vs[0] if vs else w
+                    fixed = isinstance(wexpr, ast.Call) and isinstance(wexpr.func, ast.Attribute) and wexpr.func.attr == "unsqueeze"
+                    counted = any(isinstance(c, ast.Call) and isinstance(c.func, ast.Attribute) and c.func.attr in ("dim", "ndimension") for c in ast.walk(wexpr)) or "ndim" in src(wexpr) or "_pad_with_singletons" in src(wexpr)
+                    ok = counted and not (fixed and not counted)
+                    rep.add("C15-8", "%s:%s.%s[quadrature weights]" % (cls.module.name, cls.qualname, name), "%s:%d" % (m.module.relpath, x.lineno), ok,
+                            "the weights get as many trailing singleton axes as the weighted term has further dimensions" if ok else
+                            "`%s` gives the (q,) weights a fixed number of trailing axes: with data of batch shape (b,) the log marginals are q x b x n and the weights line up with the batch dimension - an error, or for b = q silently wrong values ([-2.64, -0.53, -3.34] instead of [-1.98, -1.36, -1.68])" % " ".join(src(wexpr).split())[:60], {})
+    rep.floor("C15-8", "uses of the quadrature-site weights in objectives", n, 1)
